@@ -333,23 +333,22 @@ Proof.
   intros Hc Hl Hx. unfold fix_left.
   repeat match goal with |- context [if ?b then _ else _] => destruct b eqn:? end; lia.
 Qed.
-(* ... so the cursor's cell is on the screen and term_pos puts the terminal cursor exactly on it,
-   provided the steering column is the column of the cursor's own cell *)
-Theorem cursor_cell_visible xleft xcol cols ccol : 1 <= cols -> 0 <= xleft -> 0 <= xcol ->
-  ccol = xcol ->
-  let l := fix_left xleft xcol cols in l <= ccol < l + cols /\ term_col l cols ccol = ccol - l.
+(* ... so the cell that steers -- the cursor's own column wcol = vi_off2col(xb, xrow, xoff) -- is on the screen and
+   term_pos maps it to itself (no clamping) *)
+Theorem cursor_cell_visible xleft wcol cols : 1 <= cols -> 0 <= xleft -> 0 <= wcol ->
+  let l := fix_left xleft wcol cols in l <= wcol < l + cols /\ term_col l cols wcol = wcol - l.
 Proof.
-  intros Hc Hl Hx ->. pose proof (fix_left_follows xleft xcol cols Hc Hl Hx) as H. cbv zeta in *.
+  intros Hc Hl Hx. pose proof (fix_left_follows xleft wcol cols Hc Hl Hx) as H. cbv zeta in *.
   split; [lia|]. unfold term_col.
-  replace (xcol - fix_left xleft xcol cols <? 0) with false by lia.
-  replace (cols <=? xcol - fix_left xleft xcol cols) with false by lia. reflexivity.
+  replace (wcol - fix_left xleft wcol cols <? 0) with false by lia.
+  replace (cols <=? wcol - fix_left xleft wcol cols) with false by lia. reflexivity.
 Qed.
-(* without that proviso the claim is false: a 20-column window steered by the remembered column 59
-   (after `$` on a 60-character line and `k` onto a 5-character line whose last cell is 4) *)
-Theorem sticky_left_refuted : exists xleft xcol cols ccol,
-  1 <= cols /\ 0 <= xleft /\ 0 <= ccol <= xcol /\
-  let l := fix_left xleft xcol cols in ~ (l <= ccol < l + cols) /\ term_col l cols ccol <> ccol - l.
-Proof. exists 49, 59, 20, 4. vm_compute. repeat split; try discriminate; intros [H1 H2]; apply H1; reflexivity. Qed.
+(* a window that already contains the column is kept *)
+Lemma fix_left_stable xleft wcol cols : xleft <= wcol < xleft + cols -> fix_left xleft wcol cols = xleft.
+Proof.
+  intro H. unfold fix_left. replace (xleft + cols <=? wcol) with false by lia.
+  replace (wcol <? xleft) with false by lia. reflexivity.
+Qed.
 
 (* ---------- vi_drawfix ---------- *)
 Local Close Scope Z_scope.
@@ -532,9 +531,9 @@ Proof.
 Qed.
 End Fix2.
 
-(* the call vi_change makes after a character-wise change on an empty buffer, vi_drawfix(0,-1,0,0)
-   (DESIGN.md section 9 row 19), is outside fix_pre and does damage a correct screen *)
-Theorem empty_change_refuted : exists (f : nat -> nat) h, 1 <= h /\
+(* fix_pre is needed: the call vi_drawfix(0,-1,0,0) (which vi_change made after a character-wise change on an
+   empty buffer until fix 835c133, DESIGN.md section 9 row 19) is outside it and damages a correct screen *)
+Theorem fix_pre_needed : exists (f : nat -> nat) h, 1 <= h /\
   drawfix nat 0 f 0 h 0%Z (-1)%Z 0%Z (win nat f 0 h) <> win nat f 0 h.
 Proof. exists (fun i => S i), 3. split; [lia|]. vm_compute. discriminate. Qed.
 
